@@ -165,36 +165,47 @@ def build_extract():
 FORBIDDEN = re.compile(r"\b(Admitted|admit|Axiom|Axioms|Parameter|Parameters|Conjecture|Hypothesis|Variable|Variables|Hypotheses)\b|Unset Guard|bypass_check|type-in-type|impredicative-set|Admit Obligations")
 
 
+def project_files():
+    out = []
+    for line in open(os.path.join(COQ, "_CoqProject")):
+        line = line.strip()
+        if line.endswith(".v"):
+            out.append(os.path.join(COQ, line))
+    return out
+
+
 def grep_forbidden():
     """Admitted/Axiom/… anywhere in the development (Variable/Hypothesis allowed only inside a Section)."""
     bad = []
-    for d, dn, fn in os.walk(COQ):
-        for f in fn:
-            if not f.endswith(".v"):
-                continue
-            path = os.path.join(d, f)
-            depth = 0
-            incomment = 0
-            for ln, line in enumerate(open(path), 1):
-                code = re.sub(r"\(\*.*?\*\)", "", line)
-                if "(*" in code and "*)" not in code:
-                    incomment += 1
-                    code = code.split("(*")[0]
-                elif incomment and "*)" in code:
-                    incomment -= 1
-                    code = code.split("*)", 1)[1]
-                elif incomment:
+    for path in project_files():
+        depth = 0
+        text = open(path).read()
+        # strip comments (nested)
+        out = []
+        lvl = 0
+        i = 0
+        while i < len(text):
+            if text.startswith("(*", i):
+                lvl += 1
+                i += 2
+            elif text.startswith("*)", i) and lvl > 0:
+                lvl -= 1
+                i += 2
+            else:
+                if lvl == 0 or text[i] == "\n":
+                    out.append(text[i])
+                i += 1
+        for ln, code in enumerate("".join(out).split("\n"), 1):
+            if re.match(r"\s*Section\b", code):
+                depth += 1
+            if re.match(r"\s*End\b", code) and depth > 0:
+                depth -= 1
+            m = FORBIDDEN.search(code)
+            if m:
+                w = m.group(0)
+                if w in ("Variable", "Variables", "Hypothesis", "Hypotheses") and depth > 0:
                     continue
-                if re.match(r"\s*Section\b", code):
-                    depth += 1
-                if re.match(r"\s*End\b", code) and depth > 0:
-                    depth -= 1
-                m = FORBIDDEN.search(code)
-                if m:
-                    w = m.group(0)
-                    if w in ("Variable", "Variables", "Hypothesis", "Hypotheses") and depth > 0:
-                        continue
-                    bad.append("%s:%d: %s" % (os.path.relpath(path, VERIF), ln, w))
+                bad.append("%s:%d: %s" % (os.path.relpath(path, VERIF), ln, w))
     return bad
 
 
